@@ -22,31 +22,33 @@ import (
 // NoiseGrpcConn (real XX handshake) -> Read / Write, with relay faults.
 
 type stackCfg struct {
-	id       int
-	writes   [2][]int // write sizes: [0] client->server, [1] server->client
-	faultN   int      // faults are injected into the first faultN messages of every stream
-	pDrop    int      // per mille
-	pSendErr int
-	pRecvErr int
-	idleAt   [2]int        // the writer of side x pauses before this write (-1: never) ...
-	idle     time.Duration // ... for this long: keepalive pings (5 s / 7 s) go out on the idle connection
-	ws       bool          // the client uses the WebSocket transport (JSON text frames, base64 payloads) instead of gRPC
-	plain    bool          // plain connKit (no Noise): ClientConn / ServerConn used directly
-	realTime bool          // outside the bubble (stream errors make the code sleep while holding a mutex,
+	id              int
+	writes          [2][]int // write sizes: [0] client->server, [1] server->client
+	faultN          int      // faults are injected into the first faultN messages of every stream
+	pDrop           int      // per mille
+	pSendErr        int
+	pRecvErr        int
+	idleAt          [2]int        // the writer of side x pauses before this write (-1: never) ...
+	idle            time.Duration // ... for this long: keepalive pings (5 s / 7 s) go out on the idle connection
+	wsSlowFirstDial bool          // the relay answers the first WebSocket receive dial only after 2.5 s
+	ws              bool          // the client uses the WebSocket transport (JSON text frames, base64 payloads) instead of gRPC
+	plain           bool          // plain connKit (no Noise): ClientConn / ServerConn used directly
+	realTime        bool          // outside the bubble (stream errors make the code sleep while holding a mutex,
 	// which the fake clock of synctest cannot get past)
 }
 
 type stackRes struct {
-	hsErr     [2]error
-	written   [2][]byte // bytes accepted by Write on side x
-	read      [2][]byte // bytes read on side x
-	ioErr     [2]string
-	done      bool
-	virtual   time.Duration
-	sidOK     bool
-	sidDetail string
-	readNs    []int
-	readBufs  []int
+	hsErr           [2]error
+	written         [2][]byte // bytes accepted by Write on side x
+	read            [2][]byte // bytes read on side x
+	ioErr           [2]string
+	done            bool
+	virtual         time.Duration
+	sidOK           bool
+	sidDetail       string
+	wsLeft, wsDials int
+	readNs          []int
+	readBufs        []int
 }
 
 func runStack(t *testing.T, r *rng, cfg stackCfg, marker []byte) (res stackRes, relay *fakeRelay, leaked []string, pan string) {
@@ -95,6 +97,11 @@ func stackBody(r *rng, cfg stackCfg, marker []byte, relay *fakeRelay, resp *stac
 			var stop func()
 			wsHost, stop = relay.serveWS()
 			defer stop()
+			if cfg.wsSlowFirstDial {
+				relay.mu.Lock()
+				relay.wsRecvDelay = 2500 * time.Millisecond // longer than the 2 s GBN handshake timeout
+				relay.mu.Unlock()
+			}
 		}
 		entropy := r.bytes(14)
 		auth := append([]byte("macaroon:"), marker...)
@@ -258,6 +265,21 @@ func stackBody(r *rng, cfg stackCfg, marker []byte, relay *fakeRelay, resp *stac
 			time.Sleep(10 * time.Second)
 			wait()
 		}
+		if cfg.ws {
+			// every WebSocket the client dialled is closed again once the connection is closed
+			for k := 0; k < 40; k++ {
+				relay.mu.Lock()
+				open := relay.wsSendOpen
+				relay.mu.Unlock()
+				if open == 0 {
+					break
+				}
+				time.Sleep(50 * time.Millisecond)
+			}
+			relay.mu.Lock()
+			res.wsLeft, res.wsDials = relay.wsSendOpen, relay.wsSendDials
+			relay.mu.Unlock()
+		}
 		if !cfg.realTime && runtime.NumGoroutine() > base {
 			buf := make([]byte, 1<<20)
 			buf = buf[:runtime.Stack(buf, true)]
@@ -328,6 +350,9 @@ func TestGenC05(t *testing.T) {
 		}
 		if cfg.ws {
 			q.stat("cases_websocket_client", 1)
+			q.check(res.wsLeft == 0, "c12:websocket-left-open-after-close", func() string {
+				return desc() + fmt.Sprintf("; the client dialled %d WebSocket send sockets, %d are still open 2 s after Close", res.wsDials, res.wsLeft)
+			})
 		}
 		for x := 0; x < 2; x++ {
 			y := 1 - x
@@ -429,6 +454,7 @@ func TestGenC05(t *testing.T) {
 				class = "clean"
 				cfg.writes[1] = append([]int{rr.pick([]int{49000, 50000, 65535}), 65535}, cfg.writes[1]...)
 				cfg.writes[0] = append([]int{65535}, cfg.writes[0]...)
+				cfg.wsSlowFirstDial = k == m-1
 			}
 			marker := rr.bytes(16)
 			res, relay, leaked, pan := runStack(t, rr, cfg, marker)
